@@ -1,0 +1,244 @@
+//! Verification hooks. Compiled only with `--cfg asca_verif`; the normal build never sees this module.
+//!
+//! Three things live here:
+//!  * structural access to the internal word representation (parse / build / render / apply step by step),
+//!  * an event sink the interpreter's loop heads report to (thread local, off unless `record` installs it),
+//!  * a step counter that turns a non-terminating loop into a located unwind (`BudgetExhausted`).
+
+use std::cell::{Cell, RefCell};
+use std::collections::VecDeque;
+
+pub use crate::seg::{NodeKind, Segment};
+pub use crate::syll::{StressKind, Syllable};
+pub use crate::word::{SegPos, Word};
+pub use crate::{Error, Phrase, RuleGroup};
+
+use crate::alias::Transformation;
+use crate::parser::{BinMod, ModKind};
+use crate::rule::Rule;
+
+// ------------------------------------------------------------------------------------------------
+// events and step budget
+
+#[derive(Debug, Clone)]
+pub enum Event {
+    /// a loop head was reached: (site, syllable, segment, fingerprint of the word, inner index)
+    Tick { site: u32, syll: usize, seg: usize, fp: u64, inner: usize },
+    /// `SubRule::apply` main loop: binding tables right after they were cleared
+    Bind { alphas: usize, vars: usize },
+    /// `input_match_at` returned: cursor it started from, captures (kind, syll, seg, set index), next cursor
+    Found { cur: (usize, usize), caps: Vec<(u8, usize, usize, Option<usize>)>, next: Option<(usize, usize)> },
+    /// contexts and exceptions were evaluated for the current match
+    Env { ok: bool },
+    /// `transform` returned
+    Xform { word: Word, next: Option<(usize, usize)> },
+    /// insertion loop: one insertion performed
+    Inserted { word: Word, next: Option<(usize, usize)> },
+    /// a sub-rule is about to be applied / has been applied (inside `Rule::apply`)
+    SubBegin { word: Word },
+    SubEnd { word: Word },
+    /// pipeline loops (`apply_rule_groups` = run, `apply_rules_trace` = trace)
+    RunPhrase, RunWord { word: Word }, RunGroup, RunApply { before: Word }, RunApplied { after: Word }, RunWordEnd { word: Word },
+    TraceGroup, TraceWord { index: usize }, TraceApply { before: Word }, TraceApplied { after: Word }, TraceSnapshot { changed: bool },
+}
+
+pub struct BudgetExhausted { pub site: u32, pub ticks: u64 }
+
+thread_local! {
+    static TICKS:  Cell<u64> = const { Cell::new(0) };
+    static BUDGET: Cell<u64> = const { Cell::new(0) };          // 0 = unlimited
+    static TRACE_TICKS: Cell<bool> = const { Cell::new(false) };
+    static SINK: RefCell<Option<Vec<Event>>> = const { RefCell::new(None) };
+}
+
+fn fingerprint(word: &Word) -> u64 {
+    // 64-bit FNV-1a over the structural content
+    let mut h: u64 = 0xcbf29ce484222325;
+    let mut eat = |b: u64| { h ^= b; h = h.wrapping_mul(0x100000001b3); };
+    for s in &word.syllables {
+        eat(0xfff1);
+        eat(match s.stress { StressKind::Primary => 1, StressKind::Secondary => 2, StressKind::Unstressed => 0 });
+        eat(s.tone as u64);
+        for g in &s.segments {
+            eat(g.root as u64); eat(g.manner as u64); eat(g.laryngeal as u64);
+            eat(match *g.place { Some(p) => 0x10000 | p as u64, None => 0 });
+        }
+    }
+    h
+}
+
+#[inline]
+fn bump(site: u32) {
+    let t = TICKS.with(|c| { let v = c.get() + 1; c.set(v); v });
+    let b = BUDGET.with(|c| c.get());
+    if b != 0 && t > b {
+        std::panic::panic_any(BudgetExhausted { site, ticks: t });
+    }
+}
+
+/// loop head without interesting state
+#[inline]
+pub fn tick(site: u32) {
+    bump(site);
+}
+
+/// loop head whose state is (cursor, word)
+pub fn tick_at(site: u32, pos: SegPos, word: &Word, inner: usize) {
+    bump(site);
+    if TRACE_TICKS.with(|c| c.get()) {
+        let ev = Event::Tick { site, syll: pos.syll_index, seg: pos.seg_index, fp: fingerprint(word), inner };
+        SINK.with(|s| if let Some(v) = s.borrow_mut().as_mut() { v.push(ev) });
+    }
+}
+
+pub fn enabled() -> bool {
+    SINK.with(|s| s.borrow().is_some())
+}
+
+/// `f` is only evaluated when a sink is installed
+pub fn emit<F: FnOnce() -> Event>(f: F) {
+    SINK.with(|s| {
+        let mut s = s.borrow_mut();
+        if let Some(v) = s.as_mut() { v.push(f()) }
+    });
+}
+
+pub fn pos(p: SegPos) -> (usize, usize) { (p.syll_index, p.seg_index) }
+
+pub(crate) fn caps(c: &[crate::subrule::MatchElement]) -> Vec<(u8, usize, usize, Option<usize>)> {
+    use crate::subrule::MatchElement::*;
+    c.iter().map(|m| match m {
+        Segment(sp, si)  => (0u8, sp.syll_index, sp.seg_index, *si),
+        Syllable(s, si)  => (1u8, *s, 0, *si),
+        SyllBound(s, si) => (2u8, *s, 0, *si),
+    }).collect()
+}
+
+pub struct Recorded<T> {
+    /// `Err` holds the panic payload (a `BudgetExhausted` for an exhausted budget)
+    pub result: std::thread::Result<T>,
+    pub events: Vec<Event>,
+    pub ticks: u64,
+}
+
+/// Runs `f` with the step budget `budget` (0 = unlimited), recording events when `events` is set and
+/// loop states when `ticks` is set. Panics inside `f` are caught and returned.
+pub fn record<T, F: FnOnce() -> T + std::panic::UnwindSafe>(budget: u64, events: bool, ticks: bool, f: F) -> Recorded<T> {
+    TICKS.with(|c| c.set(0));
+    BUDGET.with(|c| c.set(budget));
+    TRACE_TICKS.with(|c| c.set(ticks));
+    SINK.with(|s| *s.borrow_mut() = if events || ticks { Some(Vec::new()) } else { None });
+    let result = std::panic::catch_unwind(f);
+    let events = SINK.with(|s| s.borrow_mut().take()).unwrap_or_default();
+    let ticks = TICKS.with(|c| c.get());
+    BUDGET.with(|c| c.set(0));
+    TRACE_TICKS.with(|c| c.set(false));
+    Recorded { result, events, ticks }
+}
+
+// ------------------------------------------------------------------------------------------------
+// structural access
+
+pub struct Aliases { pub(crate) into: Vec<Transformation>, pub(crate) from: Vec<Transformation> }
+
+pub fn parse_aliases(into: &[String], from: &[String]) -> Result<Aliases, Error> {
+    let (into, from) = crate::parse_aliases(into, from)?;
+    Ok(Aliases { into, from })
+}
+
+pub fn no_aliases() -> Aliases { Aliases { into: vec![], from: vec![] } }
+
+pub fn parse_word(text: &str, aliases: &Aliases) -> Result<Word, Error> {
+    Word::new(crate::normalise(text), &aliases.into)
+}
+
+pub fn render_word(word: &Word, aliases: &Aliases) -> String {
+    word.render(&aliases.from)
+}
+
+pub fn is_americanist(word: &Word) -> bool {
+    // the flag is private to `word`; it is observable through the rendering of an americanist grapheme
+    let mut w = word.clone();
+    let mut sy = Syllable { segments: VecDeque::new(), stress: StressKind::Unstressed, tone: 0 };
+    let ts = Word::new("t͡s".to_string(), &[]).expect("t͡s parses");
+    sy.segments.push_back(ts.syllables[0].segments[0]);
+    w.syllables = vec![sy];
+    w.render(&[]) == "¢"
+}
+
+/// Builds a word from parts. `stress`: 0 unstressed, 1 primary, 2 secondary.
+pub fn make_word(sylls: &[(Vec<Segment>, u8, u16)], americanist: bool) -> Word {
+    let mut w = Word::new(if americanist { "¢".to_string() } else { "a".to_string() }, &[]).expect("seed word parses");
+    w.syllables = sylls.iter().map(|(segs, st, tone)| Syllable {
+        segments: segs.iter().copied().collect(),
+        stress: match st { 1 => StressKind::Primary, 2 => StressKind::Secondary, _ => StressKind::Unstressed },
+        tone: *tone,
+    }).collect();
+    w
+}
+
+pub struct Rules(pub(crate) Vec<Vec<Rule>>);
+
+impl Rules {
+    pub fn shape(&self) -> Vec<usize> { self.0.iter().map(|g| g.len()).collect() }
+}
+
+pub fn parse_rules(groups: &[RuleGroup]) -> Result<Rules, Error> {
+    Ok(Rules(crate::parse_rule_groups(groups)?))
+}
+
+pub struct Step { pub group: usize, pub rule: usize, pub sub: usize, pub word: Word }
+
+/// Applies every rule of every group in order and returns the word after **every sub-rule**.
+pub fn apply_structural(rules: &Rules, word: Word) -> Result<Vec<Step>, Error> {
+    let mut out = Vec::new();
+    let mut w = word;
+    for (gi, g) in rules.0.iter().enumerate() {
+        for (ri, r) in g.iter().enumerate() {
+            for (si, sr) in r.split_into_subrules()?.into_iter().enumerate() {
+                w = sr.apply(w)?;
+                out.push(Step { group: gi, rule: ri, sub: si, word: w.clone() });
+            }
+        }
+    }
+    Ok(out)
+}
+
+/// The library's own loop nests on already parsed input (so events carry no parsing noise).
+pub fn run_loop(rules: &Rules, phrases: &[Phrase]) -> Result<Vec<Phrase>, Error> {
+    crate::apply_rule_groups(&rules.0, phrases)
+}
+
+pub fn trace_loop(rules: &Rules, phrase: &Phrase) -> Result<Vec<crate::Change>, Error> {
+    crate::apply_rules_trace(&rules.0, phrase)
+}
+
+pub fn parse_phrases(lines: &[String], aliases: &Aliases) -> Result<Vec<Phrase>, Error> {
+    crate::parse_phrases(lines, &aliases.into)
+}
+
+// ------------------------------------------------------------------------------------------------
+// the tables the code actually loaded
+
+pub struct DiaRow { pub name: String, pub diacrit: char, pub prereqs: Vec<(bool, usize, bool)>, pub payload: Vec<(bool, usize, bool)> }
+
+fn dia_mods(m: &crate::seg::DiaMods) -> Vec<(bool, usize, bool)> {
+    // (is_node, index, positive); nodes first, in table order
+    let mut v = Vec::new();
+    for (i, x) in m.nodes.iter().enumerate() {
+        if let Some(ModKind::Binary(b)) = x { v.push((true, i, *b == BinMod::Positive)) }
+    }
+    for (i, x) in m.feats.iter().enumerate() {
+        if let Some(ModKind::Binary(b)) = x { v.push((false, i, *b == BinMod::Positive)) }
+    }
+    v
+}
+
+/// Cardinals in the order the renderer iterates them, and the diacritic table in its order.
+pub fn tables() -> (Vec<(String, Segment)>, Vec<DiaRow>) {
+    let cards = crate::CARDINALS_VEC.iter().map(|g| (g.clone(), *crate::CARDINALS_MAP.get(g).unwrap())).collect();
+    let dias = crate::DIACRITS.iter().map(|d| DiaRow {
+        name: d.name.clone(), diacrit: d.diacrit, prereqs: dia_mods(&d.prereqs), payload: dia_mods(&d.payload),
+    }).collect();
+    (cards, dias)
+}
